@@ -33,13 +33,13 @@ pub const THEMES: [(&str, bool); 34] = [
     ("q_overflow", false),
     // regions of known findings (known_findings.d/C16.json)
     ("ddl_alter", true),
-    ("star_expr", true),
+    ("star_expr", false),
     ("sess_atomicity", true),
     ("unique_violation", true),
     ("failed_update", true),
-    ("q_case", true),
-    ("q_subquery", true),
-    ("q_having", true),
+    ("q_case", false),
+    ("q_subquery", false),
+    ("q_having", false),
 ];
 
 const KEYWORDS: [&str; 86] = [
